@@ -543,6 +543,9 @@ class ScriptBackend(TrialBackend):
                 res[hk] = 1000 + r
             if self.p.get("nan_metric") and self.rng.random() < 0.2:
                 res[self.metric_names[0]] = float("nan")
+        if self.p.get("text_metric") and len(self.metric_names) > 1 and self.rng.random() < 0.12:
+            # the second metric of a (scripted) multi-metric scheduler is now and then not a number
+            res[self.metric_names[1]] = "text%d" % self.rng.randint(0, 3)
         t["metrics"].append(res)
 
     def _advance(self, tid):
@@ -1562,7 +1565,7 @@ def gen_sim_combined(rng, tier):
     return spec
 
 
-def gen_spec(rng, tier):
+def gen_spec(rng, tier, text_metric=False):
     sim = rng.random() < 0.22
     sp = gen_scheduler(rng, sim)
     style = rng.choice(["plain", "plain", "cost", "rich"])
@@ -1633,6 +1636,8 @@ def gen_spec(rng, tier):
             else:
                 spec["backend_params"]["vstyle"] = "zero-max"
                 spec["criterion"] = {"max_metric_value": {METRIC: frac_str(-0.5)}, "max_num_evaluations": rng.randint(25, 40)}
+        if not real and sp.get("metric_names") and text_metric:
+            spec["backend_params"]["text_metric"] = True
     return spec
 
 
@@ -1998,6 +2003,10 @@ def monitor_c20_loop(t):
             in_final = True
         if c[:2] == ["sched", "removable"] and isinstance(a, dict) and "ids" in a:
             removable |= set(a["ids"])
+        if c[:2] == ["be", "delete"] and not t["header"]["delete_checkpoints"]:
+            if not any(f["signature"] == "c20:delete-although-deletion-off" for f in out):
+                out.append(F("c20:delete-although-deletion-off", f"checkpoint of trial {c[2]} deleted although the back-end was created with "
+                             f"delete_checkpoints=False", {"call": i}))
         if c[:2] == ["be", "delete"]:
             tid = c[2]
             ok = in_final or tid in removable or (prev is not None and prev == ["be", "stop", tid])
